@@ -218,7 +218,16 @@ impl<'a> Gen<'a> {
                 9 if self.k.links => {
                     self.kinds.insert("a");
                     let ida = self.idattr();
-                    let nm = if self.k.ids && self.r.p(10) { format!(" name=nm{}", self.r.b(5)) } else { String::new() };
+                    let nm = if self.k.ids && self.r.p(10) {
+                        if self.k.unique {
+                            self.counter += 1;
+                            format!(" name=nm{}", self.counter)
+                        } else {
+                            format!(" name=nm{}", self.r.b(5))
+                        }
+                    } else {
+                        String::new()
+                    };
                     if self.k.href_digits {
                         out.push_str(&format!("<a href=\"/{}/\"{ida}{nm}>", self.r.b(9)));
                     } else {
